@@ -214,6 +214,36 @@ def relations(rng, tier, rpt):
             back = run(lambda: cls.FromCoordinates(x, y).RawEncoded().ToBytes().hex())
             if back != views[0][3]:
                 rep("%s.FromCoordinates(X(), Y()) does not rebuild the point" % cls.__name__, enc.hex(), str(back), views[0][3])
+    # key from point: PublicKey.FromPoint(P) is the key FromBytes(encoding of P) gives, and IsValidPoint(P) holds, for every curve;
+    # directed at points with a coordinate that starts with a zero byte (fixed-width slips), found by scanning generator multiples
+    nfp = 0
+    for c, cls in POINT.items():
+        pts, zero = [], 0
+        for j in range(1, 400 if tier == "quick" else 4000):
+            k = j if j < 60 else rng.randrange(1, order(c))
+            pt = GEN[c].Generator() * k
+            z = (pt.X() >> 248) == 0 or (pt.Y() >> 248) == 0
+            if z and zero < (3 if tier == "quick" else 30):
+                zero += 1
+                pts.append(pt)
+            elif j % 40 == 1:
+                pts.append(pt)
+            if zero >= (3 if tier == "quick" else 30) and len(pts) > 12:
+                break
+        for pt in pts:
+            nfp += 1
+            want = run(lambda: PUB[c].FromBytes(pt.RawEncoded().ToBytes()).RawCompressed().ToHex())
+            got = run(lambda: PUB[c].FromPoint(pt).RawCompressed().ToHex())
+            ok = run(lambda: PUB[c].IsValidPoint(pt))
+            if got != want or ok is not True:
+                rep("%s public key from a point differs from the key from the point's encoding" % c, "X=%d Y=%d" % (pt.X(), pt.Y()),
+                    "%s valid=%s" % (got, ok), "%s valid=True" % want)
+                break
+            rebuilt = run(lambda: pt_out(PUB[c].FromPoint(pt).Point()))
+            if rebuilt != pt_out(pt):
+                rep("%s key built from a point returns a different point" % c, "X=%d Y=%d" % (pt.X(), pt.Y()), rebuilt, pt_out(pt))
+                break
+    rpt.extra["from_point_checks"] = nfp
     rpt.extra["accessor_order_checks"] = na
     rpt.extra["backend_comparisons"] = n
     return bad[:8]
